@@ -52,6 +52,13 @@ type Program struct {
 	boolSums  map[*ssa.Function]*boolSum
 	ov        map[ssa.Value]string
 	ovMemo    map[descKey]string
+	helperBusy map[*ssa.Function]bool
+	boolSumsK  map[boolSumKey]*boolSum
+}
+
+type boolSumKey struct {
+	fn *ssa.Function
+	k  int
 }
 
 type descKey struct {
